@@ -33,6 +33,7 @@ def handle (j : Json) : R Json := do
   let l ← locOfJson (← fld j "loc")
   let wf := geneWF l
   let common := [("scope", toJson wf), ("len", toJson l.len), ("nbases", toJson (bases l).length),
+                 ("standard_gene", toJson (if isRev l then descDisjointB l.parts else ascDisjointB l.parts)),
                  ("feature_start", toJson (featureStart l)), ("feature_end", toJson (featureEnd l)),
                  ("first_base", toJson ((bases l).head?.getD 0)), ("last_base", toJson ((bases l).getLast?.getD 0)),
                  ("bridges", toJson (bridgesOrigin l))]
